@@ -139,15 +139,6 @@ NormD(k, q) == IF k = 0 THEN << 0, 0 >> ELSE IF k % 2 = 0 THEN NormD(k \div 2, q
 (* the linear entries are decided with a tolerance: m64 reports each entry exactly as sign, exponent and five 12-bit    *)
 (* limbs of the float64 significand, and  | m' * N - a * D |  <=  2^-40 * | a * D |  (float64 evaluation errs by 2^-52;  *)
 (* a reciprocal taken in float32 errs by 2^-25).  a = ka * 2^-16.                                                       *)
-Dyadic(N, D) == \E k \in 0..12 : (N * Pow2(k)) % D = 0
-LinNear(m, ka, N, D) ==
-  IF ka = 0 THEN m[3] = 0 /\ m[4] = 0 /\ m[5] = 0 /\ m[6] = 0 /\ m[7] = 0
-  ELSE /\ m[1] = (IF ka < 0 THEN 1 ELSE 0)
-       /\ m[2] < -16 /\ m[2] > -200
-       /\ LET L == BMul(BNorm(<< m[3], m[4], m[5], m[6], m[7] >>), N)
-              R == BShl(BMul(BOf(Abs(ka)), D), (-16) - m[2]) IN
-          BCmp(BAbsDiff(L, R), BShr(R, 40)) <= 0
-
 JudgeCfg(ev) ==
   LET a  == [i \in 1..6 |-> AsScaled(ev.nreg[i], 16)]
       v  == [i \in 1..4 |-> AsScaled(ev.vb[i], 6)]
